@@ -47,6 +47,42 @@ func sixStrings(n int, example []byte) [][]byte {
 	return out
 }
 
+// scribbleScalars sets every exported scalar the value reaches (through pointers, interfaces, structs,
+// arrays and slices) to a conspicuous value: unsigned all-ones, signed -1, bool true.
+func scribbleScalars(v reflect.Value, depth int) {
+	if depth > 8 || !v.IsValid() {
+		return
+	}
+	switch v.Kind() {
+	case reflect.Ptr, reflect.Interface:
+		if !v.IsNil() {
+			scribbleScalars(v.Elem(), depth+1)
+		}
+	case reflect.Struct:
+		for i := 0; i < v.NumField(); i++ {
+			if v.Type().Field(i).PkgPath == "" {
+				scribbleScalars(v.Field(i), depth+1)
+			}
+		}
+	case reflect.Array, reflect.Slice:
+		for i := 0; i < v.Len(); i++ {
+			scribbleScalars(v.Index(i), depth+1)
+		}
+	case reflect.Bool:
+		if v.CanSet() {
+			v.SetBool(true)
+		}
+	case reflect.Uint8, reflect.Uint16, reflect.Uint32, reflect.Uint64, reflect.Uint:
+		if v.CanSet() {
+			v.SetUint(^uint64(0) >> (64 - uint(v.Type().Bits())))
+		}
+	case reflect.Int8, reflect.Int16, reflect.Int32, reflect.Int64, reflect.Int:
+		if v.CanSet() {
+			v.SetInt(-1)
+		}
+	}
+}
+
 func c10ReuseTypes() []reuseType {
 	var out []reuseType
 	for i := range spec.Commands {
@@ -185,9 +221,10 @@ func c10ReuseTypes() []reuseType {
 }
 
 func runC10(r *engine.Run) {
-	r.Rule = "E1 + E2 (+ E3 for schedules, reported by the C10 schedule explorer into the same evidence). (a) aliasing: frames of every kind decoded from a sub-slice with spare capacity inside a guarded arena; the arena is overwritten afterwards and the frame's deep print must not change, also after Decode*ToMACCommands / Decrypt*; encoded output overwritten must not change the frame or a second encoding. (b) out-of-slice writes: EncryptFRMPayload / EncryptFOpts for every length 0..64 x spare capacity {0,1,15,16,40} x 2 placements, guard bytes before and after the slice must be intact; Validate*/Marshal* leave the frame's deep print unchanged. (c) reuse histories: for every decodable type (29 MAC payloads, ChMask, CFList and both payload kinds, join/rejoin payloads, MACCommand, FHDR, MACPayload, PHYPayload, 35 application-layer payloads, the four Commands lists x direction) every sequence of <= 3 decodes over a 5-6 string alphabet; whenever the last decode succeeds the value must equal a fresh value decoded from the last string alone. (d) band instances: for every band name x repeater x dwell, explicit-state BFS over the mutators of instance A (C15 alphabet, depth 3) with the hook snapshot of an untouched instance B compared with a fresh instance in every state."
+	r.Rule = "E1 + E2 (+ E3 for schedules, reported by the C10 schedule explorer into the same evidence). (a) aliasing: frames of every kind decoded from a sub-slice with spare capacity inside a guarded arena; the arena is overwritten afterwards and the frame's deep print must not change, also after Decode*ToMACCommands / Decrypt*; encoded output overwritten must not change the frame or a second encoding. (b) out-of-slice writes: EncryptFRMPayload / EncryptFOpts for every length 0..64 x spare capacity {0,1,15,16,40} x 2 placements, guard bytes before and after the slice must be intact; Validate*/Marshal* leave the frame's deep print unchanged. (c) reuse histories: for every decodable type (29 MAC payloads, ChMask, CFList and both payload kinds, join/rejoin payloads, MACCommand, FHDR, MACPayload, PHYPayload, 35 application-layer payloads, the four Commands lists x direction) every sequence of <= 3 decodes over a 5-6 string alphabet, plain and with the caller setting every exported scalar field of the value between the decodes; whenever the last decode succeeds the value must equal a fresh value decoded from the last string alone. (d) band instances: for every band name x repeater x dwell, explicit-state BFS over the mutators of instance A (C15 alphabet, depth 3) with the hook snapshot of an untouched instance B compared with a fresh instance in every state."
 	frameHistory(r, 2)
 	cryptoHistory(r)
+	macCommandReuse(r)
 	bandInstanceHistory(r)
 	r.Assume("deep print = all exported and unexported fields, slices by content, pointers by pointee; two values with the same deep print are indistinguishable to every method")
 
@@ -533,8 +570,9 @@ func runC10(r *engine.Run) {
 		t := t
 		na := uint64(len(t.alphabet))
 		total := na + na*na + na*na*na
-		r.PartDims("reuse/"+t.name, []string{fmt.Sprintf("alphabet:%d byte strings", na), "history length:1..3"}, total, func(c *engine.Case) {
-			i := c.Index
+		r.PartDims("reuse/"+t.name, []string{fmt.Sprintf("alphabet:%d byte strings", na), "history length:1..3", "between the decodes{nothing, the caller sets every exported scalar field (all-ones / -1 / true)}"}, 2*total, func(c *engine.Case) {
+			edited := c.Index >= total
+			i := c.Index % total
 			l := 1
 			for n := na; i >= n; n *= na {
 				i -= n
@@ -548,6 +586,11 @@ func runC10(r *engine.Run) {
 				last = t.alphabet[i%na]
 				i /= na
 				hist = append(hist, last)
+				if edited {
+					// a used value is any value: what the caller wrote into it (the full 32-bit counter
+					// after a 16-bit one was decoded, say) is gone after the next decode
+					scribbleScalars(reflect.ValueOf(v), 0)
+				}
 				in := append([]byte(nil), last...)
 				lastErr = t.decode(v, in)
 				// the input may be overwritten after the call without affecting the value
@@ -575,7 +618,11 @@ func runC10(r *engine.Run) {
 				for _, h := range hist {
 					hs = append(hs, fmt.Sprintf("%x", h))
 				}
-				c.Fail("reuse/"+t.name, fmt.Sprintf("%s: after decoding %v into one value it is %s; a fresh value decoded from %x alone is %s", t.name, hs, got, last, want), nil)
+				key := "reuse/" + t.name
+				if edited {
+					key += "/after-caller-edits"
+				}
+				c.Fail(key, fmt.Sprintf("%s: after decoding %v into one value (caller edits in between: %v) it is %s; a fresh value decoded from %x alone is %s", t.name, hs, edited, got, last, want), nil)
 			}
 			c.Outcome("reuse/compared")
 		})
